@@ -84,9 +84,11 @@ VIOLATED = got != exp or gots != exps
 DETAIL = 'product: ' + repr(got[:3]) + ' ... sequential: ' + repr(gots)
 if not VIOLATED:
     # the same sweep with one list, then the other, then both given as expression text
+    base = [ParameterValues(key='detector.geometry.row', values=[3, 4, 5]), ParameterValues(key='detector.geometry.col', values=[7, 8]), ps[2]]
+    exp = sorted(((i, j), (('detector.geometry.col', c), ('detector.geometry.row', r)), n) for n, ((i, r), (j, c)) in enumerate(__import__('itertools').product(enumerate([3, 4, 5]), enumerate([7, 8]))))
     for txt in ((0,), (1,), (0, 1)):
-        ps2 = [ParameterValues(key='detector.geometry.row', values='numpy.arange(3, 6)') if 0 in txt else ps[0],
-               ParameterValues(key='detector.geometry.col', values='numpy.arange(7, 9)') if 1 in txt else ps[1], ps[2]]
+        ps2 = [ParameterValues(key='detector.geometry.row', values='numpy.arange(3, 6)') if 0 in txt else base[0],
+               ParameterValues(key='detector.geometry.col', values='numpy.arange(7, 9)') if 1 in txt else base[1], base[2]]
         got2 = sorted((e.index, tuple(sorted(e.parameters.items())), e.run_index) for e in ProductMode(ps2).get_parameters_item())
         if got2 != exp:
             VIOLATED, DETAIL = True, f"with parameter(s) {txt} given as 'numpy.arange(..)' text the product has {len(got2)} entries (expected {len(exp)}): " + repr(got2[:4])
